@@ -155,3 +155,15 @@ contract('gnpy.topology.request.isdisjoint', props=['C12'],
                                      'or (pth1[1] == pth2[0] and pth1[2] == pth2[1]) or (pth1[1] == pth2[1] and pth1[2] == pth2[2])))'),
                   ('zero_or_one', 'result == 0 or result == 1')],
          use_at_calls=False, modifies=[])
+
+# ================================================================== C16 / C19 aggregation: only identical requests are merged
+_RQ = dict(request_id=string(), source=string(), destination=string(), tsp=string(), tsp_mode=opt(string()), baud_rate=opt(real()),
+           nodes_list=lst(string(), string()), loose_list=lst(string(), string()), spacing=real(), power=real(),
+           nb_channel=integer(), f_min=real(), f_max=real(), format=opt(string()), OSNR=opt(real()), roll_off=opt(real()),
+           tx_power=real(), bidir=boolean())
+_SAME = ' and '.join(f'req1.{f} == req2.{f}' for f in _RQ if f != 'request_id')
+contract('gnpy.topology.request.compare_reqs', name='gnpy.topology.request.compare_reqs[no disjunction]', props=['C16', 'C19'],
+         params={'req1': obj('<ns>', **_RQ), 'req2': obj('<ns>', **_RQ), 'disjlist': const([])},
+         # two requests may be merged only when every field that decides route, mode and spectrum is the same
+         ensures=[('identical_in_every_deciding_field', f'iff(result, {_SAME})')],
+         use_at_calls=False, modifies=[])
